@@ -17,6 +17,7 @@ import (
 	"encoding/json"
 	"fmt"
 	"os"
+	"runtime/pprof"
 	"strconv"
 	"strings"
 
@@ -342,6 +343,11 @@ func clip(s string) string {
 
 func main() {
 	o := hx.ParseOpts()
+	if p := os.Getenv("C19_PROFILE"); p != "" {
+		f, _ := os.Create(p)
+		pprof.StartCPUProfile(f)
+		defer pprof.StopCPUProfile()
+	}
 	res := hx.NewResult(o, "twin sessions: recipe (channel set variant x contact x URN slots x trigger type x flow options x resumes) drawn from the PRNG, "+
 		"each URN occurrence instantiated twice (same scheme, same derived country, same channel affinity, different path/display); each recipe is run "+
 		"on the real engine for 2 policies x 2 sides and observed after the trigger and after every resume; distinct = distinct recipe; non-trivial = without "+
